@@ -50,6 +50,11 @@ WORLDS = {
     "W64-575q": (["FP_PRIME=575", "FP_QNRES=on", "BN_PRECI=3072"], ""),
     "W64-638": (["FP_PRIME=638"], ""),
     "W64-544": (["FP_PRIME=544"], ""),
+    "W64-160": (["FP_PRIME=160"], ""),
+    "W64-192": (["FP_PRIME=192"], ""),
+    "W64-224": (["FP_PRIME=224"], ""),
+    "W64-384": (["FP_PRIME=384"], ""),
+    "W64-521": (["FP_PRIME=521"], ""),
     "W64-fb163": (["FB_POLYN=163"], ""),
     "W64-fb233": (["FB_POLYN=233"], ""),
     # the remaining pairing field sizes (one selectable family each): thorough tier only
